@@ -252,7 +252,7 @@ def judge(R: Recorder, prog: list[dict[str, Any]], meta: dict[str, Any], out: di
     if W.tg_anomalies:
         R.count("exit_waited_without_own_probe", W.tg_anomalies)
     # exception identity
-    if meta["fault"] in ("failing-completion", "late-leaver") and fault_block is not None and fault_block in W.block_phase:
+    if meta["fault"] in ("failing-completion", "late-leaver", "absorbed-group-cancel") and fault_block is not None and fault_block in W.block_phase:
         # the body ended normally and cleanup is fault free: leaving the block raises nothing
         caught = W.caught.get(fault_block)
         R.monitor("exception-identity", caught is None, where={**w0, "kind": "normal-exit-raised"}, detail=f"body of {fault_block} returned normally, yet its caller caught {caught!r}", case=rec_case)
@@ -322,6 +322,20 @@ def late_child_failure_programs():  # noqa: ANN201
             yield [{"op": "probe", "id": 0}, out, {"op": "probe", "id": 4}], {"block": "out", "kind": "ascope", "fault": "body-exception", "exit": exit_kind, "after_late_child_failure": True}
 
 
+def absorbed_group_cancel_programs():  # noqa: ANN201
+    """a spawned task fails while the body waits; the group cancels the body; the body suppresses that cancellation (`except CancelledError`
+    + `Task.uncancel()`, as asyncio asks for) and then returns / raises an error of its own, possibly while another spawned task is still
+    running: nobody asked the task to cancel - the block is left normally / with that very error"""
+    for exit_kind in ("return", "raise-exc", "raise-keyerror", "raise-base"):
+        for slow in (False, True):
+            body: list[dict[str, Any]] = [{"op": "probe", "id": 1}, {"op": "spawn", "via": "ctx", "name": "out.c0", "owner": "out", "body": [{"op": "fail", "tag": "out.c0"}]}]
+            if slow:
+                body.append({"op": "spawn", "via": "ctx", "name": "out.c1", "owner": "out", "body": [{"op": "gate", "label": "out.c1", "on_cancel_sleep": 3}]})
+            body += [{"op": "gate", "label": "out.wait"}, {"op": "probe", "id": 2}]
+            out = {"op": "block", "kind": "ascope", "name": "out", "supply": [["D1", 1]], "catch": True, "convert_cancel": "absorb", "body": body, "exit": {"kind": exit_kind}}
+            yield [{"op": "probe", "id": 0}, out, {"op": "probe", "id": 3}], {"block": "out", "kind": "ascope", "fault": "body-exception" if exit_kind != "return" else "absorbed-group-cancel", "exit": exit_kind, "body_absorbed_the_groups_cancellation": True, "no_tg_probe": True}
+
+
 def late_leaver_programs():  # noqa: ANN201
     """a task spawned from inside nested synchronous scopes (it joins the enclosing asynchronous scope's group) enters a block of
     its own while they are open and leaves it only after some or all of them were left: leaving that block normally has to hand
@@ -343,6 +357,9 @@ def run(R: Recorder, tier: str, seed: int, shard: int, nshards: int) -> None:
     if shard == 0:
         for p, meta in late_leaver_programs():
             R.count("programs_leaving_a_block_after_the_scopes_it_was_spawned_from")
+            explore_variant(R, p, meta, random.Random(0), DFS_CAP[tier])
+        for p, meta in absorbed_group_cancel_programs():
+            R.count("programs_whose_body_absorbs_the_groups_cancellation")
             explore_variant(R, p, meta, random.Random(0), DFS_CAP[tier])
         rng0 = random.Random(f"C02/{seed}/late")
         for p, meta in late_child_failure_programs():
